@@ -233,9 +233,10 @@ class Session:
     def probe_value(self, annotation: Any, name: str = "", _depth: int = 0) -> Any:
         """A plausible value for a signature annotation (used only to provoke the request during discovery)."""
         tp = annotation
-        if _depth > 6:
-            return None
         origin = typing.get_origin(tp)
+        if _depth > 6:
+            # recursion cut-off (self-referential models): the smallest value of the right shape
+            return [] if origin in (list, typing.List) else ({} if origin is dict else None)
         if origin is typing.Annotated:
             return self.probe_value(typing.get_args(tp)[0], name, _depth + 1)
         if origin is typing.Union or str(origin) == "<class 'types.UnionType'>":
